@@ -17,8 +17,17 @@ CFG = {
                   "the harness tokenises the real bytes with its own tokenizer",
     "technique": "Coq proof (induction over property lists, records, header lines, faces) + vm_compute correspondence check",
     "design_ref": "DESIGN.md §4 C08",
-    "n_quick": 260, "n_thorough": 6000,
-    "rule": "see harness/cmd/c08/main.go",
+    "n_quick": 220, "n_thorough": 5000,
+    "rule": "fixed corner files (3 encodings x 8 layouts: alpha before/after/between colour bytes, element face 0, int "
+            "16777217 + non-float32 double, uchar scalar, quad+triangle with per-corner UVs, no vertices) + random "
+            "abstract files through an independent Go reference encoder: 3-14 vertex properties from recognised groups "
+            "and unrecognised names, block-wise or fully permuted, type mixes (uchar/int/float/double; odd-typed or "
+            "missing group member), aliases, 0-6 vertices with boundary values, face element with uchar/int/uint counts, "
+            "int/uint indices, vertex_index(/indices), optional texcoord float/double and extra list properties, "
+            "tri/mixed/quad, header noise (comment/obj_info/blank lines incl. the words element, property, end_header), "
+            "CRLF, other elements after the faces, ascii/LE/BE; 1/12 cut streams; a small share outside the quantifier "
+            "(char/short/ushort/uint, vertex list property, n-gons, unusual count/index types) compared with the model "
+            "only; distinct by file bytes; non-trivial = at least one vertex and three properties",
     "trusted": ["strconv.ParseFloat/ParseInt/FormatFloat and strings.Fields are outside the model: the harness passes "
                 "each ASCII token as the pair (ParseInt result, ParseFloat bits)",
                 "float64(b)/255 is tabulated for the 256 byte values (table checked against Go on every run by the correspondence)"],
